@@ -42,6 +42,21 @@ EXTRA_DOCS = {   # families that exercise cooperating fixes (same line, same lev
     "no-final-newline": b"# T\n\ntext",
     "hr-styles": b"# T\n\n---\n\n***\n",
     "fence-in-list": b"# T\n\n- a\n```text\ncode\n```\n- b\n",
+    # keys that start with a rule id: that rule alone is run on the document as well (C08)
+    "md009-setext-multiline-hardbreak": b"Heading with a   \nhard break\n===\n\ntext with a break   \nnext line\n\n- item   \n  more\n\n> quote   \n> more\n",
+    "md009-setext-later": b"# T\n\nFirst  \nsecond\n---\n\nparagraph   \nwith break\n",
+    "md046-fence-after-two-line-para": b"    indented first\n\npara line one\npara line two\n```text\ncode\n```\n\n> quote one\n> quote two\n> ```text\n> c\n> ```\n",
+    "md046-indented-after-para-list": b"```text\nfenced first\n```\n\npara\n\n    indented\n\n- item\n\n      indented in item\n",
+    "md048-mixed-in-containers": b"```text\na\n```\n\n> ~~~text\n> b\n> ~~~\n\n- ~~~text\n  c\n  ~~~\n",
+    "md035-in-containers": b"---\n\n> ***\n\n- - - -\n\n* * *\n",
+    "md004-nested": b"- a\n  * b\n    + c\n\ntext\n\n+ d\n  - e\n",
+    "md007-nested": b"- a\n   - b\n      - c\n- d\n    - e\n",
+    "md029-long": b"1. a\n1. b\n3. c\n\ntext\n\n0. x\n1. y\n5. z\n",
+    "md030-mixed": b"-  a\n-   b\n\n1.  c\n2.   d\n",
+    "md019-md021": b"#  one\n\n##  two  ##\n\n###   three\n",
+    "md012-in-containers": b"# T\n\n> a\n>\n>\n> b\n\n- c\n\n\n  d\n",
+    "md010-tabs": b"# T\n\ntext\twith\ttabs\n\n\tcode with tab\n\n- item\twith tab\n",
+    "md037-md038-md039": b"# T\n\nsome * emph * and ** strong ** text\n\nand ` code ` with [ link ]( /u ) here\n",
 }
 
 
